@@ -118,7 +118,7 @@ func arrayLit(input c.RollbackLexer) ([]c.Node, *Error) {
 }
 
 func atom(input c.RollbackLexer) ([]c.Node, *Error) {
-	return nested(c.Choose(
+	return c.Choose(
 		c.Conditional{Gate: c.Assert(c.And(parameters, acceptToken("->"))), OnSuccess: function},
 		c.Conditional{Gate: c.Assert(c.And(varName, acceptToken("("))), OnSuccess: call},
 		c.Conditional{Gate: floatLit, OnSuccess: c.Ok()},
@@ -128,7 +128,7 @@ func atom(input c.RollbackLexer) ([]c.Node, *Error) {
 		c.Conditional{Gate: stringLit, OnSuccess: c.Ok()},
 		c.Conditional{Gate: c.Assert(acceptToken("[")), OnSuccess: arrayLit},
 		c.Conditional{Gate: c.Assert(acceptToken("(")), OnSuccess: paren},
-		c.Conditional{Gate: c.Ok(), OnSuccess: varName}))(input)
+		c.Conditional{Gate: c.Ok(), OnSuccess: varName})(input)
 }
 
 func index(input c.RollbackLexer) ([]c.Node, *Error) {
@@ -193,7 +193,7 @@ func boolOp(input c.RollbackLexer) ([]c.Node, *Error) {
 }
 
 func expression(input c.RollbackLexer) ([]c.Node, *Error) {
-	return boolOp(input)
+	return nested(boolOp)(input)
 }
 
 func assignment(input c.RollbackLexer) ([]c.Node, *Error) {
